@@ -1,6 +1,7 @@
 import WzVerif.Driver.Proto
 import WzVerif.Model.Url
 import WzVerif.Model.UrlSplit
+import WzVerif.Model.UrlEnviron
 namespace Wz.Driver.C15
 open Wz Wz.Proto Wz.Url
 
@@ -56,6 +57,21 @@ def handle : Handler
         pure (split sp ++ "|" ++ outOpt hexStr ui.1 ++ "," ++ outOpt hexStr ui.2 ++ "," ++ hexStr hi.1
           ++ "," ++ port)))
     | _, _, _ => some badArgs
+  -- environ <path> <base_url> <qs> <raw host of base_url> <its IDNA form|~> <raw host of HTTP_HOST> <its decoded form|~>
+  | "environ", [path, base, qs, ra, ca, ru, cu, bo, no] =>
+    match unhexStr path, unhexStr base, unhexStr qs, unhexStr ra, optArg unhexStr ca, unhexStr ru,
+        optArg unhexStr cu, boolArg bo, boolArg no with
+    | some path, some base, some qs, some ra, some ca, some ru, some cu, some bo, some no =>
+      let o : UrlOpaque :=
+        { bracketOk := fun _ => bo, nfkcOk := fun _ => no,
+          hostToAscii := fun h => if h == ra then ca else if h == ru then some ru else none,
+          hostToUnicode := fun h => if h == ru then cu else none }
+      some (exc (do
+        let e ← builderEnviron o path base qs
+        let r ← requestView o e
+        pure (",".intercalate [hexStr e.pathInfo, hexStr e.scriptName, hexStr e.queryString, hexStr e.httpHost,
+          hexStr e.urlScheme] ++ "|" ++ ",".intercalate [hexStr r.path, hexStr r.rootPath, hexStr r.host, hexStr r.url])))
+    | _, _, _, _, _, _, _, _, _ => some badArgs
   | "urlunsplit", [a, b, c, d, e] =>
     match unhexStr a, unhexStr b, unhexStr c, unhexStr d, unhexStr e with
     | some a, some b, some c, some d, some e =>
